@@ -10,6 +10,7 @@ import (
 	"strings"
 	"sync/atomic"
 	"testing"
+	"testing/cryptotest"
 	"testing/synctest"
 	"time"
 	"verif/proto"
@@ -75,6 +76,9 @@ func startWatchdog() {
 // RunOne executes one simulated run of a property under the given tape.
 func RunOne(t *testing.T, p *PropDef, tape *Tape, o RunOpt, keepLog bool) *RunResult {
 	res := &RunResult{Seed: tape.Seed}
+	// every consumer of cryptographic entropy (crypto/tls on both ends, also
+	// through a tls.Config the library builds itself) reads one seeded stream
+	cryptotest.SetGlobalRandom(t, tape.Seed)
 	watchdogDeadline.Store(time.Now().Add(60 * time.Second).UnixNano())
 	defer watchdogDeadline.Store(0)
 	func() {
@@ -232,7 +236,9 @@ func WorkerMain(t *testing.T) {
 					out.Violating = append(out.Violating, lite)
 				}
 			} else if len(out.Samples) < a.Samples {
-				res.Tape = nil
+				if os.Getenv("VERIF_KEEP_TAPE") == "" {
+					res.Tape = nil
+				}
 				if len(res.Log) > 120 {
 					res.Log = append(res.Log[:120], fmt.Sprintf("… %d more events", len(res.Log)-120))
 				}
